@@ -27,6 +27,7 @@ func init() {
 			{ID: "C18.2", Doc: "key sequences", Floor: 6, Run: c18r2},
 			{ID: "C18.3", Doc: "totality by coverage", Floor: 4, Run: c18r3},
 			{ID: "C18.4", Doc: "Xor / Distance / bucketIndex / randomIdInBucket shapes", Floor: 6, Run: c18r4},
+			{ID: "C18.5", Doc: "the K-nearest container trims only from the far end and only above K (shared with C02.4)", Floor: 6, Run: c02r4},
 		},
 	})
 }
